@@ -84,9 +84,11 @@ theorem tileDecoder_rect_eq_assembler (siz : SIZSegment) (t : Int) (ht : Bool) (
   have e3 : siz.XTOsiz + p * siz.XTsiz = p * siz.XTsiz + siz.XTOsiz := by omega
   have e4 : siz.YTOsiz + q * siz.YTsiz = q * siz.YTsiz + siz.YTOsiz := by omega
   rw [e1, e2, e3, e4]
-  generalize p * siz.XTsiz + siz.XTOsiz = gx
-  generalize q * siz.YTsiz + siz.YTOsiz = gy
-  simp only [decide_eq_true_eq]
-  refine Prod.ext ?_ (Prod.ext ?_ (Prod.ext ?_ ?_)) <;> simp only [] <;> (repeat' split) <;> omega
+  -- when the source writes the clamps with max/min the two sides already coincide here (rw closed the goal)
+  all_goals (
+    generalize p * siz.XTsiz + siz.XTOsiz = gx
+    generalize q * siz.YTsiz + siz.YTOsiz = gy
+    simp only [decide_eq_true_eq]
+    refine Prod.ext ?_ (Prod.ext ?_ (Prod.ext ?_ ?_)) <;> simp only [] <;> (repeat' split) <;> omega)
 
 end J2k
